@@ -42,6 +42,7 @@ def check(repo, rep, tier):
         rp.r_sentence_loop(repo, rep, 'R10.3', ti)
         rp.r_root_ids(repo, rep, 'R10.3', ti)            # every allowed root category gets an id, whether the tagger knows it or not
         rp.r_callbacks(repo, rep, 'R10.2')
+    rp.r_config_plumbing(repo, rep, 'R10.3')      # nbest (and the penalty the k best are ranked under) reaches every sentence of the call as given
     # "the list returned for a sentence": a large batch goes through a pool of workers in chunks; the n-best list that comes
     # back at position i must be the one computed from sentence i (shared with C11 R11.2 / R11.3)
     from .c11 import r_chunks, r_gather
